@@ -316,7 +316,8 @@ func main() {
 		m := ctx.LoadReplay()
 		if m["kind"] == "tempomap" {
 			var evs []tev
-			for _, e := range m["tempo_events_gap_us"].([]interface{}) {
+			l, _ := m["tempo_events_gap_us"].([]interface{})
+			for _, e := range l {
 				p := e.([]interface{})
 				evs = append(evs, tev{uint32(p[0].(float64)), uint32(p[1].(float64))})
 			}
